@@ -7,7 +7,7 @@
 From Coq Require Import List PArith ZArith Bool String FMapPositive.
 From SV Require Import SM.Store SM.StoreProofs SM.StoreCert SM.StoreCertProofs SM.StoreCopy SM.StoreCopyProofs
   SM.StoreExamples SM.KvAdd SM.KvAddProofs SM.StoreCopySrc SM.StoreCopySrcProofs SM.KvAddFresh SM.KvAddFreshProofs
-  SM.StoreCopyExport SM.StoreCopyExportProofs SM.StoreCopyFlow SM.StoreCopyFlowProofs SM.StoreCopyWholeProofs SM.StoreRowCert SM.StoreRowCertProofs SM.StoreExportCert SM.StoreExportCertProofs SM.StoreTypedLabels SM.StoreTypedLabelsProofs SM.StoreCondRow SM.StoreCondRowProofs SM.StorePickleState SM.StorePickleStateProofs SM.OpPurity SM.OpPurityProofs SM.CollapseCensus SM.CollapseCensusProofs
+  SM.StoreCopyExport SM.StoreCopyExportProofs SM.StoreCopyFlow SM.StoreCopyFlowProofs SM.StoreCopyWholeProofs SM.StoreRowCert SM.StoreRowCertProofs SM.StoreExportCert SM.StoreExportCertProofs SM.StoreTypedLabels SM.StoreTypedLabelsProofs SM.StoreCondRow SM.StoreCondRowProofs SM.StorePickleState SM.StorePickleStateProofs SM.StorePickleShort SM.StorePickleShortProofs SM.OpPurity SM.OpPurityProofs SM.CollapseCensus SM.CollapseCensusProofs
   Gen.CopyCensus_gen Gen.CopyExportReads_gen Gen.C09OpCensus_gen Gen.C09Collapse_gen.
 Import ListNotations.
 
@@ -658,3 +658,45 @@ Theorem c09_pickle_state_swap_refuted :
   alookup "inst_out"%string (setstate ["inst_in"%string; "inst_out"%string; "delay"%string] (getstate ps_obj ps_fields)) = Some (Some 2%Z) /\
   state_ok ps_fields ["inst_out"%string; "delay"%string] ["inst_out"%string; "delay"%string] = false.
 Proof. exact state_swap_refuted. Qed.
+
+(** ROUND 5 — THE SHORT FORM OF THE PICKLING PAIR.  [Output.__getstate__] leaves the optional fields out of the state when
+    the "take the long form" test fails, [__setstate__] then restores constants.  [output_short_rows] (generated): per
+    optional field its type, its own disjuncts of that test and the constant restored.  Instance obligation
+    [pickle_short_form_restores_export_equal:Output] = [short_ok output_short_rows && short_rows_cover output_state_tail
+    output_short_rows]: then for EVERY value of the field's type on which all of the field's disjuncts fail — in particular
+    for every original that takes the short form — the restored constant exports like the value. *)
+Theorem c09_pickle_short_form_export_equal : forall rows, short_ok rows = true ->
+  forall f ty ts d, In (f, ty, ts, d) rows ->
+  forall v, has_type ty v = true -> all_fail ts v = true -> export_equiv ty v (default_val d) = true.
+Proof. exact short_ok_sound. Qed.
+
+Theorem c09_pickle_short_default_typed : forall rows, short_ok rows = true ->
+  forall f ty ts d, In (f, ty, ts, d) rows -> has_type ty (default_val d) = true.
+Proof. exact short_ok_default_typed. Qed.
+
+(** The defect repaired in round 4 as a refuted shape: a float steered by truthiness (or by `!= 0`) and restored as 0.0 is
+    rejected — the value -0.0 takes the short form and exports "-0", the restored 0.0 exports "0"; the repaired test on
+    the exported text is accepted. *)
+Theorem c09_pickle_short_truthy_float_refuted :
+  row_ok ("delay"%string, TyFloat, [TTruthy], DFloatZero) = false /\
+  has_type TyFloat VFloatNegZero = true /\ all_fail [TTruthy] VFloatNegZero = true /\
+  export_equiv TyFloat VFloatNegZero (default_val DFloatZero) = false.
+Proof. exact short_truthy_float_refuted. Qed.
+
+Theorem c09_pickle_short_neq_zero_float_refuted : row_ok ("delay"%string, TyFloat, [TNeqZeroNum], DFloatZero) = false.
+Proof. exact short_neq_zero_float_refuted. Qed.
+
+(** Not vacuous: today's rows are accepted; an optional int that no disjunct reads, a test against another constant than
+    the one restored, a str restored as None are rejected. *)
+Theorem c09_pickle_short_not_vacuous :
+  row_ok ("delay"%string, TyFloat, [TFmtNotZero], DFloatZero) = true /\
+  row_ok ("times"%string, TyInt, [], DIntC (-1)) = false /\ row_ok ("times"%string, TyInt, [TNeqInt 1], DIntC (-1)) = false /\
+  row_ok ("times"%string, TyInt, [TNeqInt (-1)], DIntC (-1)) = true /\
+  row_ok ("inst_in"%string, TyOptStr, [TTruthy], DNone) = true /\
+  row_ok ("params"%string, TyStr, [TTruthy], DNone) = false /\
+  row_ok ("inst_in"%string, TyOptStr, [], DNone) = false.
+Proof.
+  split; [exact short_fmt_float_accepted|].
+  destruct short_untested_int_refuted as (A & B & C). destruct short_optstr_accepted_and_str_refuted as (D & _ & E & _ & F).
+  repeat split; assumption.
+Qed.
